@@ -427,6 +427,7 @@ def generate():
         return '[%s]' % '; '.join('(%d, %d)' % (a, b) for a, b in rs)
     out.append('Definition ASCII_TEXT_RANGES : list (N * N) := %s.' % ranges(lambda ch: ch.isprintable() or ch.isspace()))
     out.append('Definition ASCII_SPACE_RANGES : list (N * N) := %s.' % ranges(lambda ch: ch.isspace()))
+    out.append('Definition ASCII_PRINT_RANGES : list (N * N) := %s.' % ranges(lambda ch: ch.isprintable()))
     # EndCaptureRegion / CaptureRegion constructor defaults
     cr = m.CaptureRegion(7, 9)
     if (cr.offset, cr.length, cr.data, cr.min_length) != (7, 9, b'', None): raise GenError('CaptureRegion.__init__')
